@@ -1,6 +1,7 @@
 import Pff.Consts
 import Pff.Driver
 import Pff.Props.C06
+import Pff.Props.C07
 import Pff.Props.C10
 import Pff.Props.C14
 import Pff.Props.C19
